@@ -57,7 +57,7 @@ def plan(tier, seed):
             for consumer in ("fast", "slow"):
                 for p in range(parts):
                     shards.append({"mode": "enum", "backend": backend, "pacing": pacing, "consumer": consumer, "depth": depth, "part": p, "parts": parts,
-                                   "stride": 1 if tier == "thorough" or (pacing, consumer) in (("quiesce", "fast"), ("eager", "slow")) else 3,
+                                   "stride": (1 if (pacing, consumer) in (("quiesce", "fast"), ("eager", "slow")) else (2 if tier == "thorough" else 3)),
                                    "case_seed": seed})
         for i in range(2 if tier == "quick" else 8):
             shards.append({"mode": "random", "backend": backend, "case_seed": seed * 7919 + i, "n": 40 if tier == "quick" else 200})
